@@ -12,7 +12,7 @@
 #include "vh.h"
 #include <sys/mman.h>
 
-#define MAXN 12
+#define MAXN 32
 static bn_t A, B, M, U, C, D, E, F, A0, B0, M0;
 static bn_t AS[MAXN], CS[MAXN + 1], AS0[MAXN];
 
@@ -204,6 +204,27 @@ static void do_mxp_sim(const char *op) {
 	VH_TRY(err, bn_mxp_sim(C, A, B, D, E, M));
 	vh_bn("c", C);
 	unch &= vh_bn_same(A, A0) && vh_bn_same(B, B0) && vh_bn_same(M, M0);
+	fin(err, unch);
+}
+
+/* bn_mxp_sim_lot n m a0 b0 a1 b1 ...   (c = prod a_i^b_i mod m) */
+static void do_mxp_sim_lot(const char *op) {
+	static bn_t BS[MAXN];
+	static int init = 0;
+	int err = 0, unch = 1, i, n = atoi(vh_tok[2]);
+	if (n > MAXN) n = MAXN;
+	if (!init) { for (i = 0; i < MAXN; i++) { bn_null(BS[i]); bn_new(BS[i]); } init = 1; }
+	vh_bn_set(M, vh_tok[3]);
+	for (i = 0; i < n; i++) { vh_bn_set(AS[i], vh_tok[4 + 2 * i]); bn_copy(AS0[i], AS[i]); vh_bn_set(BS[i], vh_tok[5 + 2 * i]); }
+	bn_copy(M0, M);
+	bn_set_dig(C, 0x5a);
+	hdr(op, 0);
+	vh_int("n", n);
+	bn_arr("as", AS, n); bn_arr("bs", BS, n); vh_bn("m", M);
+	VH_TRY(err, bn_mxp_sim_lot(C, (const bn_t *)AS, (const bn_t *)BS, M, n));
+	vh_bn("c", C);
+	for (i = 0; i < n; i++) unch &= vh_bn_same(AS[i], AS0[i]);
+	unch &= vh_bn_same(M, M0);
 	fin(err, unch);
 }
 
@@ -581,6 +602,7 @@ static int run_case(void) {
 	else if (OP("bn_mxp_monty")) do_mxp(op, 2, al);
 	else if (OP("bn_mxp_dig")) do_mxp_dig(op);
 	else if (OP("bn_mxp_sim")) do_mxp_sim(op);
+	else if (OP("bn_mxp_sim_lot")) do_mxp_sim_lot(op);
 	else if (OP("bn_mxp_crt")) do_mxp_crt(op);
 	else if (OP("bn_mod_inv")) do_inv(op, al);
 	else if (OP("bn_mod_inv_sim")) do_inv_sim(op);
